@@ -415,7 +415,17 @@ fn invoke(ac: &AhoCorasick, method: usize, hay: &[u8], hay_str: &str, anchored: 
     }
 }
 
+fn many_patterns_list(n: usize) -> Vec<Vec<u8>> {
+    (0..n).map(|i| if i < 65536 { vec![(i >> 8) as u8, i as u8] } else { vec![0x41, 0x42, (i - 65536) as u8] }).collect()
+}
+
 fn c13_check(case: &Case, ctx: &mut Ctx) -> Result<(), String> {
+    if case.sub == "many-patterns" && case.patterns.is_empty() {
+        // replay of a many-patterns scenario case: the list is a function of params[2]
+        let n = case.params.get(2).copied().unwrap_or(0).clamp(0, 70_000) as usize;
+        let full = Case { patterns: many_patterns_list(n), sub: "many-patterns(replay)".into(), ..case.clone() };
+        return c13_check(&full, ctx);
+    }
     let cfg = &case.cfg;
     if !cfg.engine.is_top() || case.params.is_empty() {
         return Err("unsound C13 case (needs a top-level engine and a method index)".into());
@@ -607,7 +617,140 @@ fn c13_extra(tier: Tier, seed: u64, ctx: &mut Ctx) -> Result<bool, Violation> {
         }
     }
     ctx.count("configuration_cells", cell as u64);
+    c13_many_patterns(tier, ctx)?;
     Ok(true)
+}
+
+/// Pattern lists whose size sits on a 15/16-bit boundary: N distinct two-byte
+/// patterns (three-byte ones beyond 65536), so that the automaton has exactly
+/// N match states. The number of patterns / match states is not allowed to
+/// influence any accept/reject decision, and accepted searches must agree
+/// with the model. Each (N, kind, start kind) is built once and then asked
+/// every method with both anchorings.
+fn c13_many_patterns(tier: Tier, total: &mut Ctx) -> Result<(), Violation> {
+    let ns: &[usize] = match tier {
+        Tier::Quick => &[32767, 32768, 65534, 65535, 65536, 65537],
+        Tier::Thorough => &[32766, 32767, 32768, 32769, 65533, 65534, 65535, 65536, 65537, 65538],
+    };
+    let mks: &[Mk] = match tier {
+        Tier::Quick => &[Mk::Standard],
+        Tier::Thorough => &[Mk::Standard, Mk::LeftmostFirst],
+    };
+    let mut tasks: Vec<(usize, Cfg)> = Vec::new();
+    for &n in ns {
+        for &mk in mks {
+            for sk in Sk::ALL {
+                for engine in [Engine::TopNc, Engine::TopC, Engine::TopDfa] {
+                    tasks.push((n, Cfg { engine, mk, sk, prefilter: true, dense_depth: 2, byte_classes: true, casei: false }));
+                }
+            }
+        }
+    }
+    let next = std::sync::atomic::AtomicUsize::new(0);
+    let results: Vec<(Ctx, Option<Violation>)> = std::thread::scope(|sc| {
+        let hs: Vec<_> = (0..8)
+            .map(|_| {
+                sc.spawn(|| {
+                    let mut ctx = Ctx::default();
+                    loop {
+                        let t = next.fetch_add(1, std::sync::atomic::Ordering::Relaxed);
+                        if t >= tasks.len() {
+                            return (ctx, None);
+                        }
+                        let (n, cfg) = &tasks[t];
+                        let patterns = many_patterns_list(*n);
+                        let mk_case = |hay: &[u8], anchored: bool, method: usize| Case {
+                            prop: "C13".into(),
+                            sub: "many-patterns".into(),
+                            cfg: cfg.clone(),
+                            // the list is rebuilt from `params` on replay (too large to store)
+                            patterns: vec![],
+                            haystack: hay.to_vec(),
+                            span: (0, hay.len()),
+                            anchored,
+                            params: vec![method as i64, 0, *n as i64],
+                            note: format!("pattern list: {} distinct patterns (i -> [i>>8, i&255] for i < 65536, then [0x41, 0x42, i-65536])", n),
+                            ..Case::default()
+                        };
+                        let s = match Searcher::build(cfg, &patterns) {
+                            Ok(s) => s,
+                            Err(e) => return (ctx, Some(Violation { case: mk_case(b"", false, 0), reason: format!("build of {} two-byte patterns failed: {}", n, e) })),
+                        };
+                        let ac = match &s {
+                            Searcher::Top(a) => a,
+                            _ => unreachable!(),
+                        };
+                        let hay: &[u8] = b"AB\x00zz\x7f\xff\xff\x80\x00AB";
+                        let hay_str = "AB\u{0}zz\u{7f}AB";
+                        for method in 0..METHODS.len() {
+                            for anchored in [false, true] {
+                                let h: &[u8] = if matches!(method, 5 | 7 | 14 | 16) { hay_str.as_bytes() } else { hay };
+                                let expect_reject = predicate_rejects(cfg, method, anchored, false);
+                                let got = invoke(ac, method, h, hay_str, anchored, *n, (0, h.len()), None, None);
+                                let want = if !expect_reject {
+                                    Outcome::Accepted
+                                } else if method >= 10 {
+                                    Outcome::RejectedErr
+                                } else {
+                                    Outcome::RejectedPanic
+                                };
+                                if got != want {
+                                    return (
+                                        ctx,
+                                        Some(Violation {
+                                            case: mk_case(h, anchored, method),
+                                            reason: format!(
+                                                "{} on {} patterns (match kind {:?}, start kind {:?}, engine {:?}, anchored={}): expected {:?}, got {:?}",
+                                                METHODS[method], n, cfg.mk, cfg.sk, cfg.engine, anchored, want, got
+                                            ),
+                                        }),
+                                    );
+                                }
+                                ctx.begin();
+                                ctx.nontrivial();
+                                ctx.end(&mk_case(h, anchored, method));
+                                ctx.enumerated += 1;
+                            }
+                        }
+                        // accepted searches agree with the model (pattern ids above 32767 / 65535)
+                        let occ = Occ::new(&patterns, hay, false);
+                        for anchored in [false, true] {
+                            if !cfg.sk.covers(anchored) {
+                                continue;
+                            }
+                            let want = occ.iter(cfg.mk, 0, hay.len(), anchored);
+                            let got = guard(|| s.try_find_iter(input(hay, (0, hay.len()), anchored, false)));
+                            let ok = matches!(&got, Ok(Ok(g)) if *g == want);
+                            if !ok {
+                                return (ctx, Some(Violation { case: mk_case(hay, anchored, 12), reason: format!("find_iter on {} patterns differs from the model: expected {:?}, got {:?}", n, want, got.map(|r| r.map_err(|e| e.to_string()))) }));
+                            }
+                            if cfg.mk == Mk::Standard {
+                                let want = occ.overlapping(0, hay.len(), anchored);
+                                let got = guard(|| s.overlapping_steps(input(hay, (0, hay.len()), anchored, false), 2, 1000));
+                                let ok = matches!(&got, Ok(Ok(g)) if *g == want);
+                                if !ok {
+                                    return (ctx, Some(Violation { case: mk_case(hay, anchored, 11), reason: format!("overlapping steps on {} patterns differ from the model: expected {:?}, got {:?}", n, want, got.map(|r| r.map_err(|e| e.to_string()))) }));
+                                }
+                            }
+                        }
+                        ctx.class("scenario:many-patterns(15/16-bit boundaries)");
+                    }
+                })
+            })
+            .collect();
+        hs.into_iter().map(|h| h.join().expect("many-patterns thread")).collect()
+    });
+    let mut violation = None;
+    for (c, v) in results {
+        total.merge(c);
+        if violation.is_none() {
+            violation = v;
+        }
+    }
+    match violation {
+        Some(v) => Err(v),
+        None => Ok(()),
+    }
 }
 
 pub const C13: PropDef = PropDef {
